@@ -6,8 +6,8 @@ package pool
 
 import (
 	"bufio"
-	"context"
 	"bytes"
+	"context"
 	"encoding/binary"
 	"fmt"
 	"io"
@@ -52,9 +52,9 @@ func (c *UConn) Open() bool { return !c.PeerClosed && !c.SelfClosed && !c.Refuse
 
 // Upstream modes.
 const (
-	ModeAccept    = 0
-	ModeRST       = 1 // accept, then reset the connection at once
-	ModeNoListen  = 2 // listener closed: connect() fails with ECONNREFUSED; the port stays reserved
+	ModeAccept   = 0
+	ModeRST      = 1 // accept, then reset the connection at once
+	ModeNoListen = 2 // listener closed: connect() fails with ECONNREFUSED; the port stays reserved
 )
 
 // Upstream is the scripted server. Proto is "http1" or "bolt" (bolt framing also serves the
@@ -201,6 +201,11 @@ func (u *Upstream) acceptLoop(ln net.Listener) {
 			return
 		}
 		u.mu.Lock()
+		if u.closed {
+			u.mu.Unlock()
+			_ = c.Close()
+			return
+		}
 		u.connSeq++
 		uc := &UConn{ID: u.connSeq, c: c}
 		u.conns[uc.ID] = uc
